@@ -47,4 +47,5 @@ def tasks(tier, seed=0):
         for sh in range(n):
             out.append(task("vf.bounded.str_boundary", "run", f"str.{g}/bounded#{sh}", ["C03"], kind="bounded", replay="vf.bounded.str_boundary:replay",
                             group=g, shard=sh, nshards=n, budget_s=100 if tier == "quick" else 900, known_labels=kl))
+    out.append(task("vf.contracts.canaries", "ob_canaries", "harness.canaries/wrong-methods-are-noticed", ["C03", "C11", "C12", "C13", "C15"], tier=tier))
     return out
